@@ -21,6 +21,7 @@ DRIVER = os.path.join(DRIVER_DIR, "target", "release", "zmqfacts")
 CONFIGS = {
     "default": [],
     "asyncstd": ["--no-default-features", "--features", "async-std-runtime,all-transport"],
+    "asyncdisp": ["--no-default-features", "--features", "async-dispatcher-runtime,all-transport"],
 }
 
 
